@@ -92,6 +92,8 @@ def actions_equivalent(world, dom_like_actions, domain_a, domain_b, probes):
             out.append((name, "structure", {"first": [pre_a, eff_a], "second": [pre_b, eff_b]}))
             continue
         why = c01.behaviour_differs(world, pa, pre_a, eff_a, pre_b, eff_b, probes, name)
+        if why == "undecided":
+            continue
         if why:
             part = why if why in ("pre", "eff") else "structure"
             out.append((name, part, {"first": pre_a if part == "pre" else eff_a, "second": pre_b if part == "pre" else eff_b}))
@@ -145,7 +147,8 @@ def check_case(case):
     res.key = src_text
     info = {"source": src_text}
     # first parse must already be faithful (C01); otherwise the round trip says nothing about the exporter
-    if c01.vocab_diffs(dom, d1) or any(c01.compare_action(world, a, d1.actions[a["name"]], probes) for a in dom["actions"] if a["name"] in d1.actions):
+    if c01.vocab_diffs(dom, d1) or any([x for x in c01.compare_action(world, a, d1.actions[a["name"]], probes) if x[0] != "UNDECIDED"]
+                                        for a in dom["actions"] if a["name"] in d1.actions):
         res.skipped = "first-parse-unfaithful(C01)"
         return res
     okx, text2 = lib_call(export, d1, case.get("via_file", False))
@@ -170,6 +173,9 @@ def check_case(case):
             res.bad("C08/action-lost", {**info, "action": a["name"]})
             continue
         for part, detail in c01.compare_action(world, a, d2.actions[a["name"]], probes):
+            if part == "UNDECIDED":
+                res.skips.append("equivalence-undecided")
+                continue
             res.bad(f"C08/behaviour/{part}", {**info, "action": a["name"], "exported": text2[:2000], "detail": detail})
     if res.disc:
         return res
